@@ -244,8 +244,8 @@ class MBXMLToken:
             radius_el: minidom.Element = document.createElement("radius")
 
             (_lat, _long, _radius) = self.value
-            _lat = int.from_bytes(_lat, byteorder="big")
-            _long = int.from_bytes(_long, byteorder="big")
+            _lat = int.from_bytes(_lat, byteorder="big", signed=True)
+            _long = int.from_bytes(_long, byteorder="big", signed=True)
 
             lat_el.appendChild(
                 document.createTextNode(str(round((_lat * 90) / 2**31, 6)))
@@ -264,8 +264,8 @@ class MBXMLToken:
             lat_el: minidom.Element = document.createElement("lat")
             long_el: minidom.Element = document.createElement("long")
 
-            _lat = int.from_bytes(_lat, byteorder="big")
-            _long = int.from_bytes(_long, byteorder="big")
+            _lat = int.from_bytes(_lat, byteorder="big", signed=True)
+            _long = int.from_bytes(_long, byteorder="big", signed=True)
 
             lat_el.appendChild(
                 document.createTextNode(str(round((_lat * 90) / 2**31, 6)))
@@ -284,8 +284,8 @@ class MBXMLToken:
             long_el: minidom.Element = document.createElement("long")
             alt_el: minidom.Element = document.createElement("altitude")
 
-            _lat = int.from_bytes(_lat, byteorder="big")
-            _long = int.from_bytes(_long, byteorder="big")
+            _lat = int.from_bytes(_lat, byteorder="big", signed=True)
+            _long = int.from_bytes(_long, byteorder="big", signed=True)
 
             lat_el.appendChild(
                 document.createTextNode(str(round((_lat * 90) / 2**31, 6)))
@@ -552,11 +552,6 @@ class MBXML:
             value <= cls.UINTVAR_MAX
         ), f"write_uintvar cannot write integers bigger than {cls.UINTVAR_MAX}"
         bin_val: str = bin(value)[2:][::-1]
-
-        if bin_val[0:7] == "0000000" and (len(bin_val) / 7) > 1:
-            # remove appended zeroes
-            bin_val = bin_val[7:]
-
         bin_len: int = len(bin_val)
         byte_len: int = math.ceil(bin_len / 7)
 
@@ -604,6 +599,9 @@ class MBXML:
             f"(or smaller than -{cls.SINTVAR_MAX}"
         )
         sintvar: bytes = cls.write_uintvar(abs(value))
+        if sintvar[0] & 0x40:
+            # first septet carries only 6 bits of value, bit 6 is the sign
+            sintvar = b"\x80" + sintvar
         return (
             sintvar
             if value >= 0 and not negative_zero
@@ -636,8 +634,22 @@ class MBXML:
         int_part = int(value)
         dec_part = int(value % 1 * 128**precision)
         integer = cls.write_uintvar(int_part)
-        decimal = cls.write_uintvar(dec_part)
+        decimal = cls.write_fraction(dec_part, precision)
         return integer + decimal
+
+    @classmethod
+    def write_fraction(cls, dec_part: int, precision: int) -> bytes:
+        """
+        write fraction (dec_part / 128**precision), number of septets written is the precision the reader will use,
+        trailing zero septets do not change the value and are not written
+        """
+        while precision > 1 and dec_part % 128 == 0:
+            dec_part //= 128
+            precision -= 1
+        septets = [
+            (dec_part >> (7 * i)) & 0x7F for i in reversed(range(0, precision))
+        ]
+        return bytes([septet | 0x80 for septet in septets[:-1]] + septets[-1:])
 
     @classmethod
     def read_sfloatvar(cls, data: bytes, idx: int) -> Tuple[float, int]:
@@ -657,7 +669,7 @@ class MBXML:
         int_part = int(value)
         dec_part = int(abs(value % (1 if value >= 0 else -1)) * 128**precision)
         integer = cls.write_sintvar(int_part, negative_zero=value < 0)
-        decimal = cls.write_uintvar(dec_part)
+        decimal = cls.write_fraction(dec_part, precision)
         return integer + decimal
 
     @classmethod
@@ -687,16 +699,15 @@ class MBXML:
         else:
             value = int((round(value, 6) * (2**31)) / 90)
 
-        return value.to_bytes(length=4, byteorder="big")
+        return value.to_bytes(length=4, byteorder="big", signed=value < 0)
 
     @classmethod
     def write_longitude(cls, value: float) -> bytes:
         """
         Results in 4 bytes of opaque data for Longitude token
         """
-        return int((round(value, 6) * (2**32)) / 360).to_bytes(
-            length=4, byteorder="big"
-        )
+        value = int((round(value, 6) * (2**32)) / 360)
+        return value.to_bytes(length=4, byteorder="big", signed=value < 0)
 
     @classmethod
     def write_infotime(cls, value: Union[datetime, str, int]) -> bytes:
